@@ -443,7 +443,7 @@ int run_probe(std::string const& scenes_path, std::string const& out_path)
         Nav nav(params);
         auto const& g = scene.at("grid");
         int n = g.at("n").get<int>();
-        int step = g.at("step").get<int>();
+        int step[3] = {g.at("step")[0].get<int>(), g.at("step")[1].get<int>(), g.at("step")[2].get<int>()};
         int lo[3] = {g.at("lo")[0].get<int>(), g.at("lo")[1].get<int>(), g.at("lo")[2].get<int>()};
         double off[3] = {0.5 * g.at("off")[0].get<int>(), 0.5 * g.at("off")[1].get<int>(), 0.5 * g.at("off")[2].get<int>()};
         Names names;
@@ -455,7 +455,7 @@ int run_probe(std::string const& scenes_path, std::string const& out_path)
             for (int iy = 0; iy < n; ++iy)
                 for (int ix = 0; ix < n; ++ix)
                 {
-                    Real3 pos{lo[0] + ix * step + off[0], lo[1] + iy * step + off[1], lo[2] + iz * step + off[2]};
+                    Real3 pos{lo[0] + ix * step[0] + off[0], lo[1] + iy * step[1] + off[1], lo[2] + iz * step[2] + off[2]};
                     nav.view() = GeoTrackInitializer{pos, Real3{0, 0, 1}};
                     lab.push_back(names(nav.label()));
                     if (nav.view().failed())
